@@ -332,7 +332,7 @@ class Interp:
         if self.depth >= self.max_depth:
             raise Unsupported("inline depth exceeded at " + (fi.qualname if fi else "closure"))
         qual = fi.qualname if fi else getattr(node, "name", "<lambda>")
-        if self.stack.count(qual) >= 2:
+        if self.stack.count(qual) >= (2 if closure is None else 8):   # nested instances of one inner function (composed closures) are not a recursion
             self.ev("recursion", callee=qual, args=args, kwargs=kwargs)
             return Op("recursive_call", (qual, tuple(args)), kwargs)
         env = {"__module__": module, "__parent__": closure.env if closure else None}
@@ -415,6 +415,23 @@ class Interp:
             self.ev("exit", callee=qual, value=ret[0])
             self.stack.pop()
             self.depth -= 1
+
+    def call_folded(self, f, args, kwargs, node):
+        """F = reduce(compose, seq, f0) called with arguments a: with F_0 = f0 and F_k = compose(F_{k-1}, x_k), and provided every F_k calls
+        F_{k-1} with the same a, the values v_k = F_k(a) satisfy v_0 = f0(a), v_k = compose(<function returning v_{k-1}>, x_k)(a): a loop over
+        seq carrying one value"""
+        fn_, seq_, init_ = f.target
+        holder = {"__module__": "pfhedge", "__parent__": None, "__cls__": None, "fold_val": self.call_value(init_, list(args), dict(kwargs), node)}
+        if not isinstance(holder["fold_val"], Term):
+            raise Unsupported("a fold of functions whose values are not tensors")
+
+        def body():
+            prev = Partial("fold_prev", (holder, tuple(args), dict(kwargs)))
+            g = self.call_value(fn_, [prev, seq_.elem], {}, node)
+            holder["fold_val"] = self.call_value(g, list(args), dict(kwargs), node)
+
+        self.symbolic_loop(node, holder, seq_.elem, ("symlist", seq_.name), body)
+        return holder["fold_val"]
 
     def decorated_value(self, fi):
         """the value a decorated `def` binds: the decorators of the repository's own applied, innermost first, to the undecorated function"""
@@ -610,6 +627,13 @@ class Interp:
                 return tuple(base_[k_] if isinstance(base_, (list, tuple, dict)) else Op("getitem", (base_, k_)) for k_ in f.args)
             if f.kind == "attrgetter":
                 return self.getattr_value(args[0], f.args[0], node)
+            if f.kind == "fold":
+                return self.call_folded(f, args, kwargs, node)
+            if f.kind == "fold_prev":
+                holder_, a0_, k0_ = f.target
+                if len(args) != len(a0_) or any(x_ is not y_ and x_ != y_ for x_, y_ in zip(args, a0_)) or kwargs != k0_:
+                    raise Unsupported("a composed function calls the function composed so far with other arguments than its own")
+                return holder_["fold_val"]
             if f.kind == "memo_clear":
                 self.memo.pop(f.target, None)
                 return None
@@ -754,6 +778,10 @@ class Interp:
                 # a fold over a sequence of unknown length: the loop `acc = init; for x in seq: acc = fn(acc, x)`
                 if len(args) < 3:
                     raise Unsupported("functools.reduce over a symbolic sequence without initial value")
+                if isinstance(args[2], (Closure, FuncInfo, Partial, BoundMethod)) and isinstance(seq_, SymList):
+                    # a fold of FUNCTIONS (reduce(compose, clauses, identity)): the result is a function; what it returns for given arguments is
+                    # the fold of the values - worked out when it is called
+                    return Partial("fold", (fn_, seq_, args[2]))
                 holder = {"__module__": "pfhedge", "__parent__": None, "__cls__": None, "reduce_acc_": args[2], "reduce_fn_": fn_, "reduce_seq_": args[1]}
                 loop = ast.parse("for reduce_x_ in reduce_seq_:\n    reduce_acc_ = reduce_fn_(reduce_acc_, reduce_x_)\n").body[0]
                 self.exec_stmt(loop, holder)
